@@ -20,6 +20,8 @@ codec from the format documentation: `PyatvModel/C04/Opack/Ref.lean`.
                       (the invariant `InStep` threaded through `Lemmas.rt_value/rt_list/rt_pairs`);
 * `unpack_never_out_of_budget`  the decoder model's recursion budget is invisible: `unpack`
                       never answers the model-only error `fuel`, on ANY byte string;
+* `roundtrip_needs_fresh_table`  the round trip fails for an encoder whose object list is not
+                      empty at the start of a call (state surviving a call);
 * `pack_eq_refPack_partial`  the bytes are those of the documented format, for all values
                       whose data (`bytes`) objects are shorter than 64 KiB;
 * `pack_eq_refPack_counterexample`  … and NOT for a 64 KiB data object: documentation says
@@ -68,6 +70,20 @@ theorem tables_in_step (v : Value) (h : Packable v) :
     `unpack` differ from the code by running out of it -/
 theorem unpack_never_out_of_budget (data : Bytes) : unpack data ≠ .error .fuel :=
   unpack_ne_fuel data
+
+/-- **The object list must not outlive a call.**  `pack` starts every call with an empty
+    object list (`_pack(data, [])`); the round trip is FALSE for an encoder that starts from
+    a list left over by an earlier (e.g. failed) call: the stream then points at objects it
+    does not contain.  (The harness checks on the real code that nothing survives a call:
+    call histories with failing calls interleaved, each call compared with a fresh state.) -/
+theorem roundtrip_needs_fresh_table :
+    ¬ (∀ v te bs te', Packable v → packAux v te = some (bs, te') → unpack bs = .ok (canon v, [])) := by
+  intro h
+  have h1 := h (.list [.str [0x5F, 0x69]]) [[0x42, 0x5F, 0x69]] [0xD1, 0xA0] [[0x42, 0x5F, 0x69]]
+    (by decide) rfl
+  have e : unpack [0xD1, 0xA0] = .error .index := rfl
+  rw [e] at h1
+  cases h1
 
 /-- **Documented format** (partial: data objects below 64 KiB) -/
 theorem pack_eq_refPack_partial (v : Value) (h : Packable v) (hs : dataShort v = true) :
